@@ -67,6 +67,8 @@ pub tracked struct Heap {
     pub ghost out: nat,
     // the texts written by print (R16: `print!("{}", e)` appends the value of e); other output events leave it unspecified
     pub ghost log: Seq<Seq<char>>,
+    // the value of the global variable-id counter LOGIC_VAR_ID (T9; moved by next_id / set_var_id, read by get_var_id)
+    pub ghost ids: nat,
 }
 
 pub open spec fn alive(h: Heap, n: int) -> bool { h.st.dom().contains(n) }
@@ -216,6 +218,7 @@ pub fn nd_borrow_mut<'a>(n: &Rc<RefCell<SolutionNode<'a>>>, Tracked(h): Tracked<
         // std panics with "already borrowed" otherwise
         !old(h).locked.contains(nid(*n)),
     ensures
+        final(h).ids == old(h).ids,
         final(h).st == old(h).st, final(h).out == old(h).out, final(h).locked == old(h).locked.insert(nid(*n)),
 { unimplemented!() }
 
@@ -303,13 +306,13 @@ pub fn nb_no_backtracking<'a>(n: &Rc<RefCell<SolutionNode<'a>>>, Tracked(h): Tra
 #[verifier::external_body]
 pub fn nd_set_more_solutions<'a>(n: &Rc<RefCell<SolutionNode<'a>>>, v: bool, Tracked(h): Tracked<&mut Heap>)
     requires held(*old(h), nid(*n)),
-    ensures final(h).st == old(h).st.insert(nid(*n), NodeSt { more_solutions: v, ..old(h).st[nid(*n)] }),
+    ensures final(h).ids == old(h).ids, final(h).st == old(h).st.insert(nid(*n), NodeSt { more_solutions: v, ..old(h).st[nid(*n)] }),
             final(h).out == old(h).out, final(h).locked == old(h).locked,
 { unimplemented!() }
 #[verifier::external_body]
 pub fn nd_set_rule_index<'a>(n: &Rc<RefCell<SolutionNode<'a>>>, v: usize, Tracked(h): Tracked<&mut Heap>)
     requires held(*old(h), nid(*n)),
-    ensures final(h).st == old(h).st.insert(nid(*n), NodeSt { rule_index: v as int, ..old(h).st[nid(*n)] }),
+    ensures final(h).ids == old(h).ids, final(h).st == old(h).st.insert(nid(*n), NodeSt { rule_index: v as int, ..old(h).st[nid(*n)] }),
             final(h).out == old(h).out, final(h).locked == old(h).locked,
 { unimplemented!() }
 pub open spec fn link_of<'a>(r: Option<Rc<RefCell<SolutionNode<'a>>>>) -> Option<int> {
@@ -318,7 +321,7 @@ pub open spec fn link_of<'a>(r: Option<Rc<RefCell<SolutionNode<'a>>>>) -> Option
 #[verifier::external_body]
 pub fn nd_set_head_sn<'a>(n: &Rc<RefCell<SolutionNode<'a>>>, v: Option<Rc<RefCell<SolutionNode<'a>>>>, Tracked(h): Tracked<&mut Heap>)
     requires held(*old(h), nid(*n)),
-    ensures final(h).st == old(h).st.insert(nid(*n), NodeSt { head_sn: link_of(v), ..old(h).st[nid(*n)] }),
+    ensures final(h).ids == old(h).ids, final(h).st == old(h).st.insert(nid(*n), NodeSt { head_sn: link_of(v), ..old(h).st[nid(*n)] }),
             final(h).out == old(h).out, final(h).locked == old(h).locked,
 { unimplemented!() }
 
@@ -326,7 +329,7 @@ pub fn nd_set_head_sn<'a>(n: &Rc<RefCell<SolutionNode<'a>>>, v: Option<Rc<RefCel
 #[verifier::external_body]
 pub fn nd_release<'a>(n: &Rc<RefCell<SolutionNode<'a>>>, Tracked(h): Tracked<&mut Heap>)
     requires held(*old(h), nid(*n)),
-    ensures final(h).st == old(h).st, final(h).out == old(h).out, final(h).locked == old(h).locked.remove(nid(*n)),
+    ensures final(h).ids == old(h).ids, final(h).st == old(h).st, final(h).out == old(h).out, final(h).locked == old(h).locked.remove(nid(*n)),
 { unimplemented!() }
 
 // R15h  `rc_cell!(x)` = Rc::new(RefCell::new(x)): a new node with the contents of the struct x.  depth / call_depth are ghost.
@@ -340,7 +343,7 @@ pub open spec fn state_of<'a>(x: SolutionNode<'a>, d: nat, cd: nat) -> NodeSt {
 }
 #[verifier::external_body]
 pub fn nd_alloc<'a>(x: SolutionNode<'a>, Ghost(d): Ghost<nat>, Ghost(cd): Ghost<nat>, Tracked(h): Tracked<&mut Heap>) -> (r: Rc<RefCell<SolutionNode<'a>>>)
-    ensures !alive(*old(h), nid(r)),
+    ensures final(h).ids == old(h).ids, !alive(*old(h), nid(r)),
             final(h).st == old(h).st.insert(nid(r), state_of(x, d, cd)),
             final(h).out == old(h).out, final(h).locked == old(h).locked,
 { unimplemented!() }
@@ -418,13 +421,13 @@ pub proof fn lemma_complete_but(h1: Heap, h2: Heap, r: int, u: Set<int>)
 #[verifier::external_body]
 pub fn nd_set_child<'a>(n: &Rc<RefCell<SolutionNode<'a>>>, v: Option<Rc<RefCell<SolutionNode<'a>>>>, Tracked(h): Tracked<&mut Heap>)
     requires held(*old(h), nid(*n)),
-    ensures final(h).st == old(h).st.insert(nid(*n), NodeSt { child: link_of(v), ..old(h).st[nid(*n)] }),
+    ensures final(h).ids == old(h).ids, final(h).st == old(h).st.insert(nid(*n), NodeSt { child: link_of(v), ..old(h).st[nid(*n)] }),
             final(h).out == old(h).out, final(h).locked == old(h).locked,
 { unimplemented!() }
 #[verifier::external_body]
 pub fn nd_set_tail_sn<'a>(n: &Rc<RefCell<SolutionNode<'a>>>, v: Option<Rc<RefCell<SolutionNode<'a>>>>, Tracked(h): Tracked<&mut Heap>)
     requires held(*old(h), nid(*n)),
-    ensures final(h).st == old(h).st.insert(nid(*n), NodeSt { tail_sn: link_of(v), ..old(h).st[nid(*n)] }),
+    ensures final(h).ids == old(h).ids, final(h).st == old(h).st.insert(nid(*n), NodeSt { tail_sn: link_of(v), ..old(h).st[nid(*n)] }),
             final(h).out == old(h).out, final(h).locked == old(h).locked,
 { unimplemented!() }
 
@@ -574,7 +577,7 @@ pub proof fn lemma_finish(h0: Heap, h1: Heap, h2: Heap, me: int, mark: bool)
 {
     lemma_not_locked(h0, me);
     assert(h2.locked =~= h0.locked);
-    let hm = Heap { st: h1.st, locked: h2.locked, out: h2.out, log: h2.log };
+    let hm = Heap { st: h1.st, locked: h2.locked, out: h2.out, log: h2.log, ids: h2.ids };
     lemma_inv_same_st(h1, hm);
     if mark { lemma_mark(hm, h2, me); } else { lemma_inv_same_st(h1, h2); }
     assert forall|m: int| #[trigger] alive(h0, m) implies alive(h2, m)
@@ -699,7 +702,7 @@ pub open spec fn walked(h: Heap, h2: Heap, n: int) -> bool {
 #[verifier::external_body]
 pub fn nd_call_set_no_backtracking<'a>(n: &Rc<RefCell<SolutionNode<'a>>>, Tracked(h): Tracked<&mut Heap>)
     requires held(*old(h), nid(*n)),
-    ensures walked(*old(h), *final(h), nid(*n)),
+    ensures final(h).ids == old(h).ids, walked(*old(h), *final(h), nid(*n)),
 { unimplemented!() }
 
 // the walk stays inside the call: every node on it has the call depth of n and lies at or below that depth
@@ -772,12 +775,12 @@ pub proof fn lemma_walk(h: Heap, h2: Heap, n: int)
 // R16  print!(..): one output event
 #[verifier::external_body]
 pub fn verif_print(Tracked(h): Tracked<&mut Heap>)
-    ensures final(h).st == old(h).st, final(h).locked == old(h).locked, final(h).out == old(h).out + 1,
+    ensures final(h).ids == old(h).ids, final(h).st == old(h).st, final(h).locked == old(h).locked, final(h).out == old(h).out + 1,
 { unimplemented!() }
 // R16  print!("{}", e): one output event whose text is the value of e
 #[verifier::external_body]
 pub fn verif_print_text(s: &String, Tracked(h): Tracked<&mut Heap>)
-    ensures final(h).st == old(h).st, final(h).locked == old(h).locked, final(h).out == old(h).out + 1,
+    ensures final(h).ids == old(h).ids, final(h).st == old(h).st, final(h).locked == old(h).locked, final(h).out == old(h).out + 1,
             final(h).log == old(h).log.push(s@),
 { unimplemented!() }
 // R2d  panic!(..) in a function whose claims are about calls that return
